@@ -12,19 +12,8 @@
     alphazero C07  a destination pixel with alpha 0 has colour 0; alpha channel = plain resize of alpha (needs gotplain)
 -/
 import Fir.Model.ProtoResize
+import Fir.Model.RatOfFloat
 namespace Fir
-
-/-- exact rational value of a finite binary64 -/
-def ratOfF64 (x : Float) : Option Rat :=
-  let b := x.toBits.toNat
-  let sign : Int := if b ≥ 2 ^ 63 then -1 else 1
-  let e : Nat := (b / 2 ^ 52) % 2048
-  let m : Nat := b % 2 ^ 52
-  if e = 2047 then none
-  else if e = 0 then some ((sign * (m : Int) : Int) / ((2 ^ 1074 : Nat) : Rat))
-  else
-    let mant : Int := sign * ((m + 2 ^ 52 : Nat) : Int)
-    if e ≥ 1075 then some ((mant : Rat) * ((2 ^ (e - 1075) : Nat) : Rat)) else some ((mant : Rat) / ((2 ^ (1075 - e) : Nat) : Rat))
 
 def ratFloor (q : Rat) : Int := q.floor
 
